@@ -69,6 +69,19 @@ def enum_boards(tier, shard, nshards):
             yield {"w": w, "h": h, "torus": torus, "rx": rx, "ry": ry}
 
 
+def _root(rx, ry, style):
+    """The root chip as the tail of an argument list: by position, by the
+    documented keywords, or one of each."""
+    style %= 3
+    if rx == ry == 0 and style == 2:
+        return (), {}                   # the default root
+    if style == 0:
+        return (rx, ry), {}
+    if style == 1:
+        return (), {"root_x": rx, "root_y": ry}
+    return (rx,), {"root_y": ry}
+
+
 def check_boards(case):
     from rig import geometry
     w, h, rx, ry, torus = (case["w"], case["h"], case["rx"], case["ry"],
@@ -76,7 +89,8 @@ def check_boards(case):
     wraps = False
     # --- Ethernet chip list
     with sut("spinn5_eth_coords"):
-        got = list(geometry.spinn5_eth_coords(w, h, rx, ry))
+        ra, rk = _root(rx, ry, w + h + rx + ry)
+        got = list(geometry.spinn5_eth_coords(w, h, *ra, **rk))
         # asking again (same arguments, in the same process) must give the
         # same answer - also when the first answer was only partly consumed
         part = geometry.spinn5_eth_coords(w, h, rx, ry)
@@ -104,7 +118,8 @@ def check_boards(case):
             ox, oy = bt.board_origin(x, y, rx, ry)
             bx, by = bt.board_coord(x, y, rx, ry)
             with sut("spinn5_chip_coord"):
-                cc = geometry.spinn5_chip_coord(x, y, rx, ry)
+                ra, rk = _root(rx, ry, x + 2 * y + rx)
+                cc = geometry.spinn5_chip_coord(x, y, *ra, **rk)
             require(tuple(cc) == (bx, by),
                     "spinn5_chip_coord is not the offset from the board's "
                     "Ethernet chip",
@@ -118,7 +133,8 @@ def check_boards(case):
                     continue     # board origin outside a ragged machine
                 exp = (ox, oy)
             with sut("spinn5_local_eth_coord"):
-                le = geometry.spinn5_local_eth_coord(x, y, w, h, rx, ry)
+                ra, rk = _root(rx, ry, x + y + ry)
+                le = geometry.spinn5_local_eth_coord(x, y, w, h, *ra, **rk)
             n += 1
             require(tuple(le) == exp,
                     "spinn5_local_eth_coord is not the Ethernet chip of the "
@@ -160,7 +176,8 @@ def check_fpga(case):
                     other = geometry.spinn5_fpga_link(
                         x, y, link, *((rx, ry2) if (x + y) % 2 else
                                       (rx2, ry)))
-                    got = geometry.spinn5_fpga_link(x, y, link, rx, ry)
+                    ra, rk = _root(rx, ry, x + y + int(link))
+                    got = geometry.spinn5_fpga_link(x, y, link, *ra, **rk)
                 obx, oby = bt.board_coord(x, y, *((rx, ry2) if (x + y) % 2
                                                   else (rx2, ry)))
                 require((other is not None) ==
